@@ -6,6 +6,7 @@ Neutrino/Lemmas/BlockMgr.lean.
 import Neutrino.Lemmas.BlockMgrInv
 import Neutrino.Gen.BlockMgr
 import Neutrino.Lemmas.HeaderListRefine
+import Neutrino.Lemmas.BlockMgrCtx
 namespace Neutrino.BM
 
 /-- The invariant C01/C02/C19 share (DESIGN 6.6), C01 part: the stored chain is
@@ -133,6 +134,45 @@ theorem C01_headerlist_refines (cap : Nat) (hc : 0 < cap) (ops : List HL.Op) (hn
 
 example : HL.WF none [.reset 5 1, .push 6 2, .push 7 3, .push 8 4, .push 9 5] := by
   simp [HL.WF]
+
+/-- **`ctx_resolves_own_branch`, every reachable state.**  The header context handed to btcd's
+contextual checks resolves "ancestor at height `a`" through the in-memory list given to
+`checkHeaderSanity` and then through the store by height (`resolve`; the list's own answers are
+those of the abstract list by `C01_headerlist_refines`).  In every reachable state:
+* connect arm - for the header that extends the stored tip the context denotes the stored chain
+  at every height (the candidate's own ancestors);
+* reorg arm - for a branch forking at the stored header `backHead` at height `bh`, after the
+  branch headers `pre` have been validated, the context built on `reorgList` denotes the fork-point
+  prefix of the stored chain followed by `pre` at every height, as long as `pre` fits the window.
+This is what justifies reading "valid" in the validity table as "valid on its OWN branch" in
+`C01_chain_valid`.  (`C01_ctx_connect_loop` is the connect arm for every later header of the same
+message; `ctx_reorg_small_window_counterexample` shows the window proviso is needed.) -/
+theorem C01_ctx_resolves_own_branch (c : Cfg) (ok : CpsOk c.cps) (hw : 1 ≤ c.win) (peers : List Peer) (es : List Ev) :
+    let s := run c (init c peers) es
+    (∀ a, a < s.log.length → resolve s.hl s.log a = s.log[a]?) ∧
+    (∀ bh backHead pre, s.log[bh]? = some backHead → pre.length < c.win →
+      ∀ a, a < (s.log.take (bh + 1) ++ pre).length →
+        resolve (reorgList c.win backHead bh pre) s.log a = (s.log.take (bh + 1) ++ pre)[a]?) := by
+  intro s
+  have inv : BM.Inv c s := inv_run c ok hw _ es (inv_init c ok peers)
+  refine ⟨?_, ?_⟩
+  · intro a ha
+    have li := LIf_of_inv c s {} [] inv rfl rfl
+    have := (ctx_connect c s {} [] li a (by simpa using ha)).2 (by simp)
+    simpa using this
+  · intro bh backHead pre hbh hpw a ha
+    exact ctx_reorg c.win s.log bh backHead pre hbh hpw a ha
+
+/-- the connect arm inside the loop: every header of a message after the first is checked against
+`stored chain ++ headers of this message already accepted` - never against anything else, and
+completely while the in-memory list still reaches the stored tip -/
+theorem C01_ctx_connect_loop (c : Cfg) (s : State) (l : Loc) (rest : List Nat) (li : LIf c s l rest) (a : Nat)
+    (ha : a < (s.log ++ l.batch).length) :
+    (∀ x, resolve s.hl s.log a = some x → (s.log ++ l.batch)[a]? = some x) ∧
+    (l.batch.length ≤ s.hl.length → resolve s.hl s.log a = (s.log ++ l.batch)[a]?) :=
+  ctx_connect c s l rest li a ha
+
+example : resolve (reorgList 4 0 0 [3, 4]) [0, 1, 2] 1 = some 3 := by decide
 
 /-! Non-vacuity: a concrete table, a fork, a reorganisation. -/
 def exTbl : Tbl :=
